@@ -3,7 +3,7 @@
    as odd").  So on canonical input the decoder is a partial inverse of the encoder, and two different
    canonical strings never decode to the same point. *)
 From Coq Require Import ZArith NArith List Bool Lia.
-From DosVerif Require Import Base.Val Base.Field Gen.EdConsts Models.Ed Models.EdCodec.
+From DosVerif Require Import Base.Val Base.Field Gen.EdConsts Models.Ed Models.EdCodec Proofs.EdCodecProofs.
 Import ListNotations.
 Open Scope Z_scope.
 
@@ -81,34 +81,24 @@ Proof.
   apply Nat.eqb_eq in El. intros Hd Hs Hy Hx.
   set (n := le_val s) in *. set (y := fe_of (n mod 2 ^ 255)) in *. set (neg := Z.odd (n / 2 ^ 255)) in *.
   pose proof (le_val_range s Hs) as Rn. rewrite El in Rn. fold n in Rn. change (256 ^ Z.of_nat 32) with (2 ^ 256) in Rn.
-  unfold decode_y in Hd. cbv zeta in Hd.
-  match type of Hd with
-  | match ?ox with Some _ => _ | None => _ end = _ => destruct ox as [x|] eqn:Eox; [|discriminate]
-  end.
-  injection Hd as <-. cbn [eX] in Hx.
+  destruct (decode_y_shape fe_ops ed_d ed_sqrtm1 fe_parity ed_exp y neg p Hd) as [x Ep]. clear Hd.
   set (xf := if Bool.eqb (fe_parity x) neg then x else fopp fe_ops x) in *.
-  assert (Hx' : zv xf <> 0 \/ neg = false) by exact Hx. clear Hx.
-  (* the affine coordinates are xf and y *)
+  subst p. cbn [eX] in Hx.
   assert (Ax : ax fe_ops (mkext xf y (f1 fe_ops) (fmul fe_ops xf y)) = xf)
     by (unfold ax; cbn [eX eZ]; rewrite fe_inv_one; apply fe_mul_one).
   assert (Ay : ay fe_ops (mkext xf y (f1 fe_ops) (fmul fe_ops xf y)) = y)
     by (unfold ay; cbn [eY eZ]; rewrite fe_inv_one; apply fe_mul_one).
-  unfold ed_encode. cbv zeta.
-  change (le_bytes 32 (zv (ay fe_ops (mkext xf y (f1 fe_ops) (fmul fe_ops xf y)))
-                       + zv (ax fe_ops (mkext xf y (f1 fe_ops) (fmul fe_ops xf y))) mod 2 * 2 ^ 255) = s).
-  rewrite Ax, Ay.
+  unfold ed_encode. cbv zeta. rewrite Ax, Ay.
   assert (Yv : zv y = n mod 2 ^ 255).
-  { unfold y. cbn. apply Z.mod_small. split; [apply Z.mod_pos_bound; reflexivity|exact Hy]. }
-  (* the parity of xf is the announced one *)
+  { unfold y, fe_of, zq_of. cbn [zv]. apply Z.mod_small. split; [apply Z.mod_pos_bound; reflexivity|exact Hy]. }
+  assert (Pf : fe_parity xf = neg).
+  { unfold xf in *. destruct (Bool.eqb (fe_parity x) neg) eqn:Ep; [apply Bool.eqb_prop; exact Ep|].
+    destruct (Z.eq_dec (zv x) 0) as [Z0|NZ].
+    - destruct Hx as [Hx|Hx]; [rewrite (neg_zero x Z0) in Hx; contradiction|].
+      unfold fe_parity. rewrite (neg_zero x Z0). cbn [Z.odd]. symmetry. exact Hx.
+    - rewrite (parity_neg x NZ). destruct (fe_parity x), neg; cbn in Ep; try discriminate; reflexivity. }
   assert (Px : zv xf mod 2 = if neg then 1 else 0).
-  { assert (Pf : fe_parity xf = neg).
-    { unfold xf. destruct (Bool.eqb (fe_parity x) neg) eqn:Ep; [apply Bool.eqb_prop; exact Ep|].
-      destruct (Z.eq_dec (zv x) 0) as [Z0|NZ].
-      - (* x = 0: then xf = -0 = 0 and the hypothesis says neg = false *)
-        unfold xf in Hx'. destruct Hx' as [Hx|Hx]; [rewrite (neg_zero x Z0) in Hx; contradiction|].
-        unfold fe_parity. rewrite (neg_zero x Z0). cbn. symmetry. exact Hx.
-      - rewrite (parity_neg x NZ). destruct (fe_parity x), neg; cbn in Ep; try discriminate; reflexivity. }
-    unfold fe_parity in Pf. rewrite Zmod_odd, Pf. reflexivity. }
+  { unfold fe_parity in Pf. rewrite Zmod_odd, Pf. reflexivity. }
   rewrite Yv, Px.
   assert (Dn : n / 2 ^ 255 = 0 \/ n / 2 ^ 255 = 1).
   { assert (0 <= n / 2 ^ 255 < 2) by (split; [apply Z.div_pos; lia|apply Z.div_lt_upper_bound; lia]). lia. }
